@@ -409,8 +409,11 @@ class Theory:
         pth = z3.Const('pth', self.Path)
         # a good differ patches x into y for every pair of values of the same container type (list/list, dict/dict, str/str);
         # it promises nothing for other pairs (nbdime's own `diff` raises on them)
+        self.wf_v = f('wf_v', V, SE.sort, B)       # deep well-formedness, defined below (typed values, part 2)
         self.axiom('good_differ_use', [fn, v, w, pth],
-                   z3.Implies(z3.And(self.good_differ(fn), self.diffable(v, w)), self.apply_v(v, self.differ(fn, v, w, pth)) == w),
+                   z3.Implies(z3.And(self.good_differ(fn), self.diffable(v, w)),
+                              z3.And(self.apply_v(v, self.differ(fn, v, w, pth)) == w,
+                                     self.wf_v(v, self.differ(fn, v, w, pth)))),
                    [self.differ(fn, v, w, pth)])
         self.differs_ok = z3.Const('differs_ok', B)
         self.axiom('differs_ok_use', [pth], z3.Implies(self.differs_ok, self.good_differ(self.differs_at(pth))),
@@ -641,7 +644,6 @@ class Theory:
                    z3.Implies(self.is_dict(v), self.apply_v(v, D) == self.of_map(self.apply_map(self.as_map(v), D))),
                    [self.apply_v(v, D)])
         # wf_v(v, D): D is a well-formed diff for the typed value v, all the way down
-        self.wf_v = f('wf_v', V, SE.sort, B)
         self.wf_str = f('wf_str', V, SE.sort, B)
         ent_i = SE.idx(D, i)
         self.axiom('wf_v_def', [v, D],
